@@ -1,3 +1,52 @@
 package main
 
-func dispatch(cmd string, args []string) bool { return false }
+import (
+	"fmt"
+	"os"
+	"strconv"
+
+	"verif/harness/internal/check"
+)
+
+var props = map[string]func(*check.Ctx) int{
+	"C01": check.C01,
+}
+
+func dispatch(cmd string, args []string) bool {
+	switch cmd {
+	case "worker":
+		os.Exit(check.WorkerMain(args))
+	case "check":
+		if len(args) < 1 {
+			fmt.Fprintln(os.Stderr, "usage: vh check <id>")
+			os.Exit(2)
+		}
+		f, ok := props[args[0]]
+		if !ok {
+			fmt.Fprintln(os.Stderr, "no check for", args[0])
+			os.Exit(2)
+		}
+		tier := os.Getenv("VERIF_TIER")
+		if tier == "" {
+			tier = "quick"
+		}
+		if len(args) > 1 {
+			tier = args[1]
+		}
+		seed, _ := strconv.ParseInt(os.Getenv("VERIF_SEED"), 10, 64)
+		if seed == 0 {
+			seed = 1
+		}
+		c, err := check.NewCtx(args[0], tier, seed)
+		if err != nil {
+			fmt.Fprintln(os.Stderr, err)
+			os.Exit(2)
+		}
+		code := f(c)
+		c.Close()
+		os.Exit(code)
+	default:
+		return false
+	}
+	return true
+}
